@@ -148,7 +148,9 @@ func (w *W) candidates(r *hx.Rng, maxConns, maxChans int) (connSteps, chanSteps,
 						acked = true
 					}
 				}
-				if !acked || r.Chance(1, 6) {
+				// INIT ends stored by a mutated (but accepted) message can never complete; try them rarely
+				hopeless := string(ic.Counterparty.Prefix.KeyPrefix) != "ibc" || (ic.Counterparty.ClientId != clientIDs[0] && ic.Counterparty.ClientId != clientIDs[1])
+				if (!acked || r.Chance(1, 6)) && (!hopeless || r.Chance(1, 10)) {
 					connSteps = append(connSteps, w.mkConnTry(1-c, ic.Id))
 				}
 			case conntypes.OPEN:
@@ -192,7 +194,8 @@ func (w *W) candidates(r *hx.Rng, maxConns, maxChans int) (connSteps, chanSteps,
 						acked = true
 					}
 				}
-				if (!acked || r.Chance(1, 6)) && myConn.Counterparty.ConnectionId != "" {
+				cpConn, cpOK := w.getConn(1-c, myConn.Counterparty.ConnectionId)
+				if (!acked || r.Chance(1, 6)) && myConn.Counterparty.ConnectionId != "" && cpOK && (cpConn.State == conntypes.OPEN || r.Chance(1, 8)) {
 					chanSteps = append(chanSteps, w.mkChanTry(r, 1-c, myConn.Counterparty.ConnectionId, ch.PortId, ch.ChannelId))
 				}
 			case chantypes.OPEN:
@@ -201,8 +204,8 @@ func (w *W) candidates(r *hx.Rng, maxConns, maxChans int) (connSteps, chanSteps,
 						chanSteps = append(chanSteps, w.mkChanProofStep("chan_confirm", 1-c, oc.PortId, oc.ChannelId))
 					}
 				}
-				if ch.Ordering == chantypes.ORDERED {
-					key := ch.PortId + "/" + ch.ChannelId
+				if ch.Ordering == chantypes.ORDERED && myConn.DelayPeriod == 0 {
+					key := pendKey(c, ch.PortId, ch.ChannelId)
 					if pkt, ok := w.pend[key]; ok {
 						cl := myConn.ClientId
 						if h := w.latest(c, cl); h >= pkt.TimeoutHeight.RevisionHeight {
@@ -221,7 +224,7 @@ func (w *W) candidates(r *hx.Rng, maxConns, maxChans int) (connSteps, chanSteps,
 					}
 				}
 			}
-			if ch.State != chantypes.CLOSED {
+			if ch.State != chantypes.CLOSED && r.Chance(1, 3) && (myConn.State == conntypes.OPEN || r.Chance(1, 8)) {
 				closeSteps = append(closeSteps, &Op{Kind: "chan_close_init", C: c, Port: ch.PortId, Chan: ch.ChannelId, Tag: "valid"})
 			}
 		}
@@ -248,12 +251,12 @@ func (w *W) mutateProof(r *hx.Rng, o *Op) string {
 		}
 		return hs[r.Intn(len(hs))]
 	}
-	switch r.Intn(9) {
-	case 0:
+	switch r.Intn(10) {
+	case 0, 9:
 		o.Proof = Prf{IsGarbage: true, Garbage: nil}
 		return "proof-empty"
 	case 1:
-		o.Proof = Prf{IsGarbage: true, Garbage: r.Bytes(1 + r.Intn(40))}
+		o.Proof = Prf{IsGarbage: true, Garbage: r.Bytes(2 + r.Intn(40))}
 		return "proof-garbage"
 	case 2: // stale but honest: both the proof and the claimed height move to an older consensus height
 		h := anyH()
@@ -306,7 +309,7 @@ func pick(r *hx.Rng, xs []string) string { return xs[r.Intn(len(xs))] }
 func (w *W) mutate(r *hx.Rng, o *Op) {
 	tag := "noop"
 	hasProof := o.Kind == "conn_try" || o.Kind == "conn_ack" || o.Kind == "conn_confirm" || o.Kind == "chan_try" || o.Kind == "chan_ack" || o.Kind == "chan_confirm" || o.Kind == "chan_close_confirm"
-	if hasProof && r.Chance(2, 5) {
+	if hasProof && r.Chance(1, 4) {
 		o.Tag = "mut:" + w.mutateProof(r, o)
 		return
 	}
@@ -489,7 +492,9 @@ func (w *W) junk(r *hx.Rng) *Op {
 	conn := badConns[r.Intn(4)]
 	chn := badChans[r.Intn(4)]
 	var o *Op
-	switch r.Intn(10) {
+	switch r.Intn(11) {
+	case 10:
+		o = &Op{Kind: "send", C: c, Port: mockPort, Chan: chn}
 	case 0:
 		o = &Op{Kind: "conn_try", C: c, Client: client, CpClient: clientIDs[r.Intn(2)], CpConn: conn, CpPrefix: "ibc",
 			Versions: conntypes.GetCompatibleVersions(), Proof: connPrf(h, conn), PH: w.ph(c, h)}
@@ -519,8 +524,7 @@ func (w *W) junk(r *hx.Rng) *Op {
 
 // ---- history driver ------------------------------------------------------------------------------
 
-func famHistories(t *testing.T, r *hx.Rng, o *hx.Out) {
-	nh := hx.N(36, 700)
+func famHistories(t *testing.T, r *hx.Rng, o *hx.Out, nh int) {
 	nops := hx.N(70, 90)
 	for i := 0; i < nh; i++ {
 		w := newWorld(t)
@@ -532,6 +536,7 @@ func famHistories(t *testing.T, r *hx.Rng, o *hx.Out) {
 		maxChans := 1 + r.Intn(4)
 		pMut := 1 + r.Intn(4) // of 10
 		expired := false
+		mayExpire := r.Chance(1, 3)
 		profile := fmt.Sprintf("conns%d-chans%d-mut%d", maxConns, maxChans, pMut)
 		run := func(op *Op) {
 			if !op.Proof.IsGarbage && op.Proof.KeyKind != "" {
@@ -551,7 +556,7 @@ func famHistories(t *testing.T, r *hx.Rng, o *hx.Out) {
 			outs = append(outs, p)
 			done = append(done, op)
 		}
-		needsUpdate := func(op *Op) (string, bool) {
+		needsUpdate0 := func(op *Op) (string, bool) {
 			switch op.Kind {
 			case "conn_try":
 				return op.Client, true
@@ -566,45 +571,66 @@ func famHistories(t *testing.T, r *hx.Rng, o *hx.Out) {
 			}
 			return "", false
 		}
+		needsUpdate := func(op *Op) (string, bool) {
+			cl, ok := needsUpdate0(op)
+			return cl, ok && (cl == clientIDs[0] || cl == clientIDs[1])
+		}
 		for len(ops) < nops {
 			cs, hs, cl := w.candidates(r, maxConns, maxChans)
 			roll := r.Intn(100)
 			var op *Op
+			// a pending packet on an ORDERED channel: drive it to its timeout half of the time
+			var pendSteps []*Op
+			for _, x := range cl {
+				if x.Kind == "timeout" || x.Tag == "for-timeout" {
+					pendSteps = append(pendSteps, x)
+				}
+			}
 			switch {
-			case roll < 38 && len(cs)+len(hs) > 0:
+			case len(pendSteps) > 0 && r.Chance(1, 2):
+				op = pendSteps[r.Intn(len(pendSteps))]
+			case roll < 34 && len(cs)+len(hs) > 0:
 				all := append(append([]*Op{}, cs...), hs...)
 				if len(hs) > 0 && r.Chance(1, 2) {
 					all = hs
 				}
 				op = all[r.Intn(len(all))]
-			case roll < 48 && len(cl) > 0:
+			case roll < 42 && len(cl) > 0:
 				op = cl[r.Intn(len(cl))]
-			case roll < 55:
+			case roll < 49:
 				op = w.junk(r)
-			case roll < 62 && len(done) > 0: // duplicate / replay of an earlier message, old proof
+			case roll < 55 && len(done) > 0: // duplicate / replay of an earlier message, old proof
 				d := *done[r.Intn(len(done))]
 				if d.Kind == "send" || d.Kind == "timeout" || d.Kind == "expire" {
 					continue
 				}
 				d.Tag = "replay"
 				op = &d
-			case roll < 70:
+			case roll < 58:
 				op = &Op{Kind: "update", C: r.Intn(2), Client: clientIDs[r.Intn(2)], Tag: "random"}
-			case roll < 73:
+			case roll < 60:
 				op = &Op{Kind: "commit", C: r.Intn(2), Tag: "random"}
-			case roll < 74 && !expired && len(ops) > nops*2/3:
+			case roll < 62 && !expired && mayExpire && len(ops) > nops*4/5:
 				op = &Op{Kind: "expire", Tag: "expire"}
 				expired = true
 			default:
-				all := append(append(append([]*Op{}, cs...), hs...), cl...)
-				if len(all) == 0 {
+				byKind := map[string][]*Op{}
+				var kinds []string
+				for _, x := range append(append(append([]*Op{}, cs...), hs...), cl...) {
+					if x.Kind == "send" || x.Kind == "timeout" || x.Kind == "update" {
+						continue
+					}
+					if _, ok := byKind[x.Kind]; !ok {
+						kinds = append(kinds, x.Kind)
+					}
+					byKind[x.Kind] = append(byKind[x.Kind], x)
+				}
+				if len(kinds) == 0 {
 					continue
 				}
-				op = all[r.Intn(len(all))]
-				if op.Kind == "send" || op.Kind == "timeout" || op.Kind == "update" {
-					continue
-				}
-				if r.Intn(10) < pMut+3 {
+				ks := byKind[kinds[r.Intn(len(kinds))]]
+				op = ks[r.Intn(len(ks))]
+				if r.Intn(10) < pMut+5 {
 					// refresh the client first so that only the mutated field is wrong
 					if cl, ok := needsUpdate(op); ok && r.Chance(4, 5) {
 						run(&Op{Kind: "update", C: op.C, Client: cl, Tag: "before-mutant"})
